@@ -1,7 +1,7 @@
 (* C03 (xfab.laue) - every orientation parametrisation yields a proper rotation equal to the documented composition;
    Rodrigues maps invert.  Definitions laue_* are regenerated from /repo/xfab/laue.py on every run. *)
 From Coq Require Import Reals.
-From XV Require Import RealLib Mat3 Atan2 Gen_laue P03_laue P03_euler.
+From XV Require Import RealLib Mat3 Atan2 Gen_laue P03_laue P03_euler P03_band P03_gimbal.
 Open Scope R_scope.
 
 Theorem C03_laue_euler_is_RzRxRz : forall p1 P p2, laue_euler_to_u p1 P p2 = mmul (Rz p1) (mmul (Rx P) (Rz p2)).
@@ -70,3 +70,13 @@ Print Assumptions C03_laue_euler_angles_recovered.
 Theorem C03_euler_nonvacuous : let U := laue_euler_to_u 1 1 1 in is_rot U /\ not_gimbal U /\ generic (m02 U) (- m12 U) /\ generic (m20 U) (m21 U).
 Proof. exact euler_111_generic. Qed.
 Print Assumptions C03_euler_nonvacuous.
+
+(* u_to_euler on EVERY rotation, whatever branch the code takes (gimbal bands, snapped _arctan2 arguments, generic): it never raises and
+   every entry of euler_to_u(u_to_euler U) is within 1e-6 of U (mclose e A B: all nine |a_ij - b_ij| <= e) *)
+Theorem C03_laue_euler_never_raises_on_rotations : forall U, is_rot U -> exists e, laue_u_to_euler U = Some e.
+Proof. exact euler_total. Qed.
+Print Assumptions C03_laue_euler_never_raises_on_rotations.
+Theorem C03_laue_euler_roundtrip_every_rotation : forall U e, is_rot U -> laue_u_to_euler U = Some e ->
+  mclose (1 / 1000000) (laue_euler_to_u (vx e) (vy e) (vz e)) U.
+Proof. exact euler_roundtrip_all. Qed.
+Print Assumptions C03_laue_euler_roundtrip_every_rotation.
